@@ -14,14 +14,13 @@ Every property is written once as a list of ``Rel`` and read twice: as a z3
 formula on the symbolic run and as a float test on the replay of the real code.
 """
 import json
-import math
 import random
 
 import numpy as np
 import z3
 
 from vlib import symx, ressym as RS
-from vlib.harness import Unit, pmap
+from vlib.harness import pmap
 from vlib.symx import Sym, term
 from vlib.ressym import (Rel, g_sqrt, g_and, g_or, g_not, g_ite, g_max, g_min, g_sum, g_abs,
                          CUT, MINRES, NLOW, NHIGH, bin_edges_ref)
@@ -329,15 +328,6 @@ def apply_linear(scn, v, o):
     return out
 
 
-def _theory_vectors(n, sym):
-    if sym:
-        return (symx.oarray(symx.reals("f", n)), symx.oarray(symx.reals("g", n)),
-                symx.real("a"), symx.real("b"), symx.oarray([Sym(symx.rat(1))] * n))
-    rnd = random.Random(7)
-    return (np.array([rnd.uniform(0.5, 2) for _ in range(n)]),
-            np.array([rnd.uniform(0.5, 2) for _ in range(n)]), 1.75, -0.375, np.ones(n))
-
-
 def p2_shape(scn, v, o):
     if not _ok(o):
         return []
@@ -485,7 +475,8 @@ def classify(scn, oname, v, o_sym, vals=None, bad=()):
         if oname == "grid" and cfg["n"] == 1 and cfg.get("grid") != "user":
             key = "%s/pinhole1d/single-point-zero-width-raises" % PID
             s = o_sym["s"][0] if o_sym and "s" in o_sym else None
-            block = (term(s) <= symx.rat(2 * MINRES / NHIGH)) if isinstance(s, Sym) else z3.BoolVal(True)
+            # no extension on either side: 3 s <= 2e-8 (then also 2.5 s <= 2e-8), exact rationals
+            block = (term(s) * symx.rat(NHIGH) <= symx.rat(2 * MINRES)) if isinstance(s, Sym) else z3.BoolVal(True)
         if oname == "coverage" and only_low and vals is not None and "s" in vals \
                 and p1_floor(vals, vals["s"]):
             key = "%s/pinhole1d/window-below-low-q-floor" % PID
@@ -557,6 +548,14 @@ def handler(scn, oname, o_sym, spec=None):
     return on_cex
 
 
+def margin(scn):
+    """Margin for robust witnesses: 1e-6 of the first data / grid value."""
+    for k in ("q", "qc"):
+        if k in scn.syms:
+            return scn.syms[k][0].t * symx.rat(1e-6)
+    return symx.rat(1e-6)
+
+
 def outputs_of(p):
     if p.exc is not None:
         return {"exc": "%s: %s" % (type(p.exc).__name__, p.exc)}
@@ -585,7 +584,7 @@ def run_unit(job, spec):
         o = outputs_of(p)
         H = p.constraints()
         dom = p.notes.get("dom", [])
-        pp = RS.PathProver(u, H, always=len(p.assume))
+        pp = RS.PathProver(u, H, always=len(p.assume), pc=p.pc, delta=margin(scn))
         # leaf side conditions: sqrt/log arguments in their domain
         if dom and spec.PID == "C03":
             pp.prove("leaf-domain", z3.And(*[c for _l, c in dom]), handler(scn, "defined", o, spec))
@@ -594,7 +593,8 @@ def run_unit(job, spec):
             rels = fn(scn, v, dict(o, notes=p.notes) if "exc" not in o else o)
             if not rels:
                 continue
-            pp.prove(oname, rels, handler(scn, oname, o, spec), sample=(pi == 0 and oname != "defined"))
+            pp.prove(oname, rels, handler(scn, oname, o, spec), sample=(pi == 0 and oname != "defined"),
+                     slice=getattr(fn, "slice", False))
             if oname == "grid" or oname.startswith("lemma:"):
                 # grid: whatever is wrong with it is reported once, here;
                 # lemma: an intermediate identity, proved first, then used
@@ -671,7 +671,7 @@ def validate(u, scn, paths, tries=3):
                 u.r["validated"] += 1
             good += 1
             continue
-        for key in ("W", "P", "G", "qcalc"):
+        for key in ("W", "P", "G", "qcalc", "qx_calc", "qy_calc"):
             if key not in p.result:
                 continue
             a = p.result[key]
@@ -743,30 +743,46 @@ def configs(chk):
 
 def run(chk):
     chk.explanation = (
-        "Bounded symbolic execution of the real sasmodels.resolution code on z3 proxy values. "
-        "Weight-matrix builders run on fully symbolic q_calc/q/width arrays; constructors run on symbolic "
-        "data with the builder recorded and grid-extension trip counts concretised over a bounded range. "
-        "Each path gives weight / grid terms; non-negativity, column sums, coverage of every point's window, "
-        "positivity of q_calc, zero-width identity, linearity of apply and absence of exceptions are z3 "
-        "obligations (unsat of the negation); counterexamples are replayed on the real code with floats.")
+        "Bounded symbolic execution of the real sasmodels.resolution / resolution2d / direct_model code on z3 "
+        "proxy values (numpy object arrays).  Weight-matrix builders (pinhole_resolution, slit_resolution, "
+        "_q_perp_weights) run on fully symbolic q_calc/q/width arrays; constructors (Pinhole1D, Slit1D, Pinhole2D, "
+        "Slit2D, Perfect1D) and apply run on symbolic data with the builder recorded and grid-extension trip counts "
+        "concretised over a bounded range; DataMixin._interpret_data/_calc_theory run with an uninterpreted kernel. "
+        "Each path gives weight / grid terms; non-negativity, unit column sums, q_calc > 0 and spanning every "
+        "point's window, zero-width identity, linearity of apply, scale/background pass-through and absence of "
+        "exceptions are z3 obligations (unsat of the negation); counterexamples are replayed on the real code with floats.")
     chk.bounds = {"data points": "1..%d" % (2 if chk.quick else 3),
                   "q_calc points (matrix builders / user grids)": "2..%d" % (4 if chk.quick else 5),
+                  "bin edges (_q_perp_weights)": "2..%d" % (4 if chk.quick else 6),
                   "grid-extension trip count per side": "<= %d (1-point data: the code's fixed 15)" % RS.MAXEXT,
+                  "2-D accuracy": "low, med" + ("" if chk.quick else ", high, xhigh"),
                   "solver timeout": "60 s per obligation, 20 s per fork"}
     chk.outside = ["grids beyond the bounds (matrix code is column-wise independent and uniform in the row count)",
                    "geometric / linear extension by more than %d points per side (paths cut and counted)" % RS.MAXEXT,
                    "floating-point rounding (doubles are reals; 10**log10(x) = x exactly)",
-                   "slit_resolution n_length other than 30 (the default Slit1D uses)"]
+                   "slit_resolution n_length other than 30 (the default Slit1D uses)",
+                   "user-supplied q_calc: coverage and normalisation (the user's responsibility; bins of a user grid "
+                   "that do not cover the window give column sums < 1 for the slit builder)",
+                   "Pinhole2D: positivity of |q_calc| when 3*dq >= |q| (cloud reaching the origin), spanning of the "
+                   "3-sigma ellipse, exact zero-width identity (the code substitutes 1e-10), data with qx = 0",
+                   "Slit2D beyond construction (apply raises on the pinned numpy: known finding)"]
     chk.stubs = list(RS.STUBS) + [
         "constructors: resolution.pinhole_resolution / slit_resolution recorded and replaced by a fresh "
         "symbolic matrix assumed non-negative with unit column sums (their guarantees, proved in the *-matrix units)",
         "slit_resolution mode LW: _q_perp_weights -> one uninterpreted function per bin, assumed >= 0 and summing "
-        "to 1 when the bins cover [|q|, sqrt(q^2+L^2)] (proved in the qperp units)"]
+        "to 1 when the bins cover [|q|, sqrt(q^2+L^2)] (proved in the qperp units)",
+        "direct_model.call_kernel -> documented kernel.Iq contract scale*P(q)+background with P uninterpreted; "
+        "model -> object recording the q vectors passed to make_kernel; direct_model.np -> same shim as resolution.np",
+        "Pinhole2D.q_calc_weights (concrete doubles) lifted to exact rationals before apply (no rounding of their sum)"]
     chk.assumptions = ["q strictly increasing and > 0; widths / lengths >= 0 (> 0 where the mode says non-zero)",
                        "matrix builders: q_calc strictly increasing (documented), > 0 for the slit builder (documented)",
                        "zero-width pinhole identity: data points further apart than 3e-8 (= nsigma * MINIMUM_RESOLUTION)",
+                       "pinhole coverage is claimed up to 2*MINIMUM_RESOLUTION = 2e-8 (the code's extension threshold)",
+                       "normalisation of slit columns at constructor level is claimed outside the documented low-q floor "
+                       "(every q - W >= 0.02*min(q)); inside it is the known finding window-below-low-q-floor",
                        "user-supplied q_calc: strictly increasing, > 0, at least two points above the 0.02*min(q) cutoff and "
-                       "one inside every pinhole window; coverage / normalisation are not claimed for user grids",
+                       "one inside every pinhole window",
+                       "2-D: qx != 0",
                        "doubles modelled as reals"]
     jobs = configs(chk)
     if getattr(chk, "only", None):
